@@ -41,7 +41,15 @@ def _cases(draw, tier):
     mode = 'cbc' if pct(draw) < (6 if tier == 'quick' else 10) else 'eb'
     salt = draw(strategies.salts)
     n_ops = draw(st.sampled_from([2, 3, 5, 8, 12, 18, 25]))
+    threads = draw(st.sampled_from([None, None, 1, 2]))
+    odd_targets = pct(draw) < 15
     inst = draw(strategies.instances(strategies.SIZES['quick']))
+    if odd_targets and inst['na'] == 3:
+        # targets are free text in a hand-written file: also outside [lower, upper quota]
+        # (only self-consistency between calls and solves is checked here, no enumeration)
+        inst['lt'] = [draw(st.sampled_from([0, 1, 2, 3, 5])) for _ in range(inst['n3'])]
+    else:
+        odd_targets = False
     opts = draw(strategies.option_sets(inst, max_crit=0 if bf else 3,
                                        stab=False if bf else None))
     ops = ['solve']
@@ -50,7 +58,7 @@ def _cases(draw, tier):
                                          'results', 'short', 'long', 'debug', 'other'])))
     other = draw(strategies.option_sets(inst, max_crit=2, stab=False if bf else None))
     return {'inst': inst, 'opts': opts, 'bf': bf, 'ops': ops, 'salt': salt, 'mode': mode,
-            'other_opts': other,
+            'other_opts': other, 'threads': threads, 'odd_targets': odd_targets,
             'choices': draw(strategies.choice_lists)}
 
 
@@ -85,12 +93,52 @@ def run_case(case):
     criteria = strategies.ordered_criteria(opts)
     fns = {'results': solver.get_results, 'short': solver.get_results_short,
            'long': solver.get_results_long, 'debug': solver.get_debug}
-    memo = {}
-    epoch = 0
-    first_summary = None
-    first_bf = None
-    seen_in_epoch = []
-    interleaved_repeat = False
+    state = {'memo': {}, 'epoch': 0, 'first': None, 'seen': [], 'interleaved': False}
+
+    def call_getter(op, where):
+        try:
+            txt = call_repo('getter', fns[op])
+        except Violation as v:
+            raise Violation('getter_raises:' + op, '%s (bf=%s): %s' % (where, bf, v.detail),
+                            exc=v.exc)
+        if not isinstance(txt, str):
+            raise Violation('getter_not_text', '%s returned %r' % (where, type(txt)))
+        memo, seen = state['memo'], state['seen']
+        if op in memo:
+            if txt != memo[op]:
+                k = _firstdiff(txt, memo[op])
+                raise Violation('getter_not_idempotent:' + op,
+                                '%s: text differs from the earlier call in the same epoch; first '
+                                'difference at char %d: %r vs %r' % (
+                                    where, k, memo[op][max(0, k - 30):][:80],
+                                    txt[max(0, k - 30):][:80]))
+            if any(x != op for x in seen[seen.index(op):]):
+                state['interleaved'] = True
+        else:
+            memo[op] = txt
+        seen.append(op)
+        return txt
+
+    def close_epoch(where):
+        """End of an epoch (just before the next solve / at the end of the history): the
+        status, criterion values and validity of this solve are compared with solve 1.  The
+        results getter is called here and not right after solve(), so that the order in which
+        the history calls the getters is really the order the object sees."""
+        if state['epoch'] == 0:
+            return
+        res = call_getter('results', where + ' [summary of solve %d]' % state['epoch'])
+        if bf:
+            cur = restext.parse_bf(res)
+            cur = (cur['infeasible'], cur['values'])
+        else:
+            cur = _summary_lp(res, o, criteria)
+        if state['first'] is None:
+            state['first'] = cur
+        elif cur != state['first']:
+            raise Violation('resolve_differs_bf' if bf else 'resolve_differs',
+                            '%s: solve %d gives %r, solve 1 gave %r'
+                            % (where, state['epoch'], cur, state['first']))
+
     for step, op in enumerate(case['ops']):
         where = 'step %d (%s) of history %r' % (step + 1, op, case['ops'])
         if op == 'other':
@@ -107,66 +155,34 @@ def run_case(case):
                 pass
             continue
         if op == 'solve':
-            epoch += 1
-            memo = {}
-            seen_in_epoch = []
+            close_epoch(where)
+            state['epoch'] += 1
+            state['memo'] = {}
+            state['seen'] = []
             be = refbackend.Backend(case.get('mode', 'eb'), case['choices'],
-                                    salt=(case['salt'] + 7 * epoch) % 60)
+                                    salt=(case['salt'] + 7 * state['epoch']) % 60)
             try:
                 with be:
-                    call_repo('solve()', solver.solve, msg=False, timeLimit=None, threads=None,
-                              write=False)
+                    call_repo('solve()', solver.solve, msg=False, timeLimit=None,
+                              threads=case.get('threads'), write=False)
             except Violation as v:
-                raise Violation('solve_raises' if epoch > 1 else 'first_solve_raises',
+                raise Violation('solve_raises' if state['epoch'] > 1 else 'first_solve_raises',
                                 '%s: %s' % (where, v.detail), exc=v.exc)
-            # status / criterion values / validity after every solve
-            try:
-                res = call_repo('get_results()', solver.get_results)
-            except Violation as v:
-                raise Violation('getter_raises:results', '%s: %s' % (where, v.detail), exc=v.exc)
-            memo['results'] = res
-            seen_in_epoch.append('results')
-            if bf:
-                cur = restext.parse_bf(res)
-                cur = (cur['infeasible'], cur['values'])
-                if first_bf is None:
-                    first_bf = cur
-                elif cur != first_bf:
-                    raise Violation('resolve_differs_bf', '%s: brute-force values %r, first '
-                                    'solve gave %r' % (where, cur, first_bf))
-            else:
-                cur = _summary_lp(res, o, criteria)
-                if first_summary is None:
-                    first_summary = cur
-                elif cur != first_summary:
-                    raise Violation('resolve_differs', '%s: solve %d gives %r, solve 1 gave %r'
-                                    % (where, epoch, cur, first_summary))
             continue
-        try:
-            txt = call_repo('getter', fns[op])
-        except Violation as v:
-            raise Violation('getter_raises:' + op, '%s (bf=%s): %s' % (where, bf, v.detail),
-                            exc=v.exc)
-        if not isinstance(txt, str):
-            raise Violation('getter_not_text', '%s returned %r' % (where, type(txt)))
-        if op in memo:
-            if txt != memo[op]:
-                raise Violation('getter_not_idempotent:' + op,
-                                '%s: text differs from the earlier call in the same epoch; first '
-                                'difference at char %d: %r vs %r' % (
-                                    where, _firstdiff(txt, memo[op]),
-                                    memo[op][max(0, _firstdiff(txt, memo[op]) - 30):][:80],
-                                    txt[max(0, _firstdiff(txt, memo[op]) - 30):][:80]))
-            if any(x != op for x in seen_in_epoch[seen_in_epoch.index(op):]):
-                interleaved_repeat = True
-        else:
-            memo[op] = txt
-        seen_in_epoch.append(op)
+        call_getter(op, where)
+    close_epoch('end of history %r' % (case['ops'],))
     nsolves = case['ops'].count('solve')
-    labels = ['other_solver_object'] * ('other' in case['ops']) + ['bf' if bf else 'lp', 'mode=' + case.get('mode', 'eb'),
-              'solves=%d' % min(nsolves, 4), 'len=%d' % len(case['ops'])]
+    labels = ['other_solver_object'] * ('other' in case['ops']) + [
+        'bf' if bf else 'lp', 'mode=' + case.get('mode', 'eb'),
+        'solves=%d' % min(nsolves, 4), 'len=%d' % len(case['ops']),
+        'threads=%r' % (case.get('threads'),)]
+    if case.get('odd_targets'):
+        labels.append('targets_outside_quotas')
+    if state['first'] is not None and not bf and state['first'].get('status') != 'Optimal':
+        labels.append('non_optimal_run')
     labels += [l for l in strategies.instance_labels(inst, opts) if l.startswith('-')]
-    return Result(nsolves >= 2 and interleaved_repeat, labels, {'operations': len(case['ops'])})
+    return Result(nsolves >= 2 and state['interleaved'], labels,
+                  {'operations': len(case['ops'])})
 
 
 def _firstdiff(a, b):
